@@ -1,9 +1,10 @@
 """C01 — lane property: word-level mechanism theorems over Gen_dqstate (+ site lists) and the stress oracle."""
 import lanes
+import lanewords
 from props import c01_root
 
 PROPERTIES_FILE = "Properties/Properties_C01.v"
-COQ_DEPS = ["Proofs/Lane_iface.vo", "Proofs/SLane_progress.vo", "Proofs/SLane_measure.vo"] + list(c01_root.COQ_DEPS)
+COQ_DEPS = ["Proofs/Lane_iface.vo", "Proofs/SLane_progress.vo", "Proofs/SLane_measure.vo"] + ["Model/LaneWords.vo"] + list(c01_root.COQ_DEPS) + ["Model/LaneWords.vo"]
 EXTRA_PROPERTIES_FILES = ["Properties/Properties_C01_slane.v", c01_root.PROPERTIES_FILE]
 GEN_MODULES = ["Gen_dqstate", "Gen_lanesites", "Gen_once"] + list(c01_root.GEN_MODULES)
 LEVEL = "proof"
@@ -16,6 +17,9 @@ TRUSTED = [
     "(exploration, not proof)",
     "src2v translator (clang AST -> Gallina), validated on the functions that have differential harnesses (C06, C12, C18)",
 ]
+TRUSTED += ["word-transition conformance (lib/lanewords.py, Model/LaneWords.v): every dq_state compare-and-swap attempt, single atomic "
+            "operation and give-up recorded in the stress runs is judged against the generated Gen_dqstate body of its source line "
+            "(parameter domains of lib/lanewords.py param_domain are trusted); it ties Gen_dqstate to the running code, it does not judge the property"]
 ASSUMPTIONS = ["the stress oracle explores the schedules the OS and the perturbation hook produce; absence of a failure there is not a proof"]
 
 
@@ -25,6 +29,7 @@ ASSUMPTIONS += list(c01_root.ASSUMPTIONS)
 
 def correspond(ctx):
     return lanes.merge([lanes.run_part("lanes", lambda c: lanes.run(c, "C01"), ctx),
+                        lanes.run_part("words", lambda c: lanewords.run(c, "C01"), ctx),
                         lanes.run_part("root", c01_root.correspond, ctx)])
 
 
